@@ -18,6 +18,12 @@ theorem hash_is_sysv (ty : BitVec 32) : tq_sym_hash_is_sysv ty = (ty == BitVec.o
 theorem hash_is_gnu (ty : BitVec 32) :
     tq_sym_hash_is_gnu ty = (ty == BitVec.ofNat 32 SHT_GNU_HASH || ty == BitVec.ofNat 32 DT_GNU_HASH) := rfl
 theorem linear_needed (b : Bool) : tq_sym_linear_needed b = !b := rfl
+theorem vr_i_init_eq : vr_i_init = 0 := rfl
+theorem vd_i_init_eq : vd_i_init = 0 := rfl
+theorem vr_pos_init_eq : tq_vr_pos_init = 0 := by decide
+theorem vd_pos_init_eq : tq_vd_pos_init = 0 := by decide
+theorem vr_i_incr_eq (i : BitVec 32) : vr_i_incr i = i + 1 := rfl
+theorem vd_i_incr_eq (i : BitVec 32) : vd_i_incr i = i + 1 := rfl
 end TQTie
 
 /-- `sym_tie` plus the C18-only sites -/
